@@ -223,7 +223,7 @@ def check_setup(ck, mod, ks, label, rulemap):
     klen = int(ks)
     f = mod.fn("tinyjambu_setup_%s" % ks)
     c = Ctx(ck, f, label, rulemap)
-    c.defer()
+    pass  # (single straight path: the shape is checked before any obligation is recorded)
     di = f.param_index("domain")
     ex, ps = run_paths(f, klen, word_args=[di] if di is not None else [])
     rets = [p for p in ps if p.end[0] == "ret"]
